@@ -107,7 +107,7 @@ fn make_builder(cfg: &Cfg, sh: &Shared, hseed: u64) -> CacheBuilder<u32, Val, Fi
   b = b
     .timer_tick_duration(Duration::from_millis(cfg.tick))
     .timer_wheel_size(cfg.wheel)
-    .janitor_tick_interval(if cfg.mchance { Duration::from_secs(4) } else { Duration::from_millis(5) })
+    .janitor_tick_interval(if cfg.mchance { Duration::from_secs(20) } else { Duration::from_millis(5) })
     .maintenance_chance(if cfg.mchance { 1 } else { 1 << 31 })
     .maintenance_on_introspection(cfg.moi)
     .eviction_listener(Listener(sh.lis.clone()));
@@ -186,7 +186,7 @@ pub fn random_cfg(rng: &mut StdRng, profile: &str, ops: usize, kf: &[String]) ->
     }
   }
   if profile == "burst" {
-    c.keys = 700;
+    c.keys = 600;
     c.cap = 10;
     c.costs = vec![1];
     c.shards = 1;
@@ -381,7 +381,8 @@ impl Sim {
     } else {
       self.cache.run_maintenance();
     }
-    self.finish(json!({"k":"maint","h":Self::h(a)}), true);
+    let v = self.cfg.keys <= 100;
+    self.finish(json!({"k":"maint","h":Self::h(a)}), v);
   }
 
   /// run_maintenance until the reported metrics and the content stop changing
@@ -753,7 +754,7 @@ impl Sim {
 
   fn burst(&mut self) {
     // many inserts of distinct keys without any maintenance in between (F16)
-    let n = self.rng.random_range(520..=680);
+    let n = self.rng.random_range(530..=590);
     let items: Vec<(u32, u32, u64)> = (0..n).map(|i| (1 + i as u32, self.wid(), 1)).collect();
     for (k, w, c) in &items {
       self.cache.insert(*k, Val { wid: *w, n: 0 }, *c);
